@@ -50,6 +50,15 @@ func (x *Exec) doCall(fr *frame, in *Instr, ops []lval) lval {
 	if strings.HasPrefix(name, "llvm.") {
 		return clean(x.intrinsic(fr, name, in, av))
 	}
+	switch name {
+	case "__sigsetjmp", "sigsetjmp", "_setjmp", "setjmp":
+		buf := x.concretize(av[0].(*smt.Term), "jmp_buf")
+		x.jmp[buf] = &jmpPoint{fr: fr, blk: fr.curBlk, idx: fr.curIdx, in: in}
+		return clean(smt.Const(in.Ty.Bits, 0))
+	case "siglongjmp", "longjmp", "_longjmp":
+		buf := x.concretize(av[0].(*smt.Term), "jmp_buf")
+		panic(&core.LongJmp{Buf: buf, Val: smt.Resize(av[1].(*smt.Term), 32, true)})
+	}
 	if f != nil && !f.IsDecl {
 		la := make([]lval, len(args))
 		for i, a := range args {
